@@ -703,6 +703,9 @@ func (dr *dirRepo) gc() error {
 				err := os.Remove(dir)
 				if err != nil && !errors.Is(err, fs.ErrNotExist) {
 					errs = append(errs, err)
+					// the entries are removed bottom up, whatever is left still needs everything listed after it:
+					// a repository that holds blobs keeps its index.json and oci-layout
+					break
 				}
 			}
 			return errors.Join(errs...)
